@@ -11,7 +11,6 @@ import (
 	"time"
 
 	"github.com/benoitkugler/gomacro/analysis"
-	"github.com/benoitkugler/gomacro/generator"
 
 	"verif/core"
 	"verif/drive"
@@ -133,7 +132,7 @@ func oracleC07(ctx *progCtx) {
 	}
 
 	// scheduler evidence: distinct map iteration orders actually observed
-	cache := generator.Cache{}
+	cache := map[*types.Named]bool{} // same shape as the generators' cache of named types
 	for t := range ctx.An.Types {
 		if n, ok := t.(*types.Named); ok {
 			cache[n] = true
